@@ -100,6 +100,13 @@ CLAIMED = {
             "columns return values in file order, only warn on convention violations, and reject tempo weight outside [0,1] and multi-line key/tempo files.",
             "NOT covered (see DESIGN 6): bit-identical float round trip (float() is an injective uninterpreted token), path vs. file object, row numbers in messages, "
             "labels outside code points 9..126, load_patterns / load_ragged_time_series. Bounds: pieces <=2/3 chars, label <=3/5, 1-2 lines, <=2/3 parsed rows.", "5 (C20), 6"),
+    "C04": ("Differential check of the real functions against independently written specification terms over the same symbolic inputs: hit-based P/R/F "
+            "from the definition 'k = size of a maximum one-to-one matching under the tolerance predicate' (existence and maximality as Boolean selection "
+            "queries), Cemgil with uninterpreted exp (congruence), melody VR/VFA/RPA/RCA/OA closed forms, tempo P-score/flags, key relation table over key "
+            "pairs, alignment statistics/PCS, boundary deviation as a median of nearest distances, pattern establishment/occurrence/three-layer scores "
+            "re-implemented from Collins with symbolic note equality.",
+            "Bounds: events <=3x2 quick / 4x3, notes <=2x2 / 3x3 (1e-4 s lattice), frames <=2 / 3, 10x10 keys quick / all pairs thorough, patterns <=2x1 / 2x2. "
+            "Outside the claim: Goto, continuity (Davies) definitions, P-score, information gain, perturbed repository fixtures.", "5 (C04)"),
 }
 
 NA_REASON = "check not built yet in this revision (planned; see DESIGN.md section 5)"
